@@ -260,6 +260,8 @@ func (fe *FE) doPanic(st *State, what, kind, label string) {
 // loop modification sets (static over-approximation)
 
 func (fe *FE) loopMods(li *loopInfo) {
+	fe.scanning = true
+	defer func() { fe.scanning = false }()
 	if li.modHeap == nil {
 		li.modHeap = map[string]bool{}
 	}
